@@ -342,7 +342,7 @@ def run_prog(m, ash, prog, stack, trace, depth=0):
             raise Boom()
         elif k == "sub":
             e2, c2, o2 = stack[-1]
-            stack.append((dict(e2), c2, False if op[2] else o2))
+            stack.append((dict(e2), c2, False))      # a new shell process: exported variables and cwd are inherited, `set` options are not
             try:
                 args = (("dash",) if ash else ("bash", "--norc", "--noprofile")) if op[2] else ()
                 if ash and not args:
@@ -357,9 +357,65 @@ def run_prog(m, ash, prog, stack, trace, depth=0):
             raise ValueError(op)
 
 
+NAMES3 = ["FOO", "BAR_1", "_z"]
+DIRS = {"/tmp": 1, "/usr": 2, "/": 3}
+
+
+def _value_table(prog):
+    tab = {"": 0}
+
+    def walk(ops):
+        for op in ops:
+            if op[0] == "set" and op[2] not in tab:
+                tab[op[2]] = len(tab)
+            elif op[0] == "sub":
+                walk(op[1])
+    walk(prog)
+    return tab
+
+
+def prog_coq(prog, tab):
+    out = []
+    for op in prog:
+        k = op[0]
+        if k == "set":
+            out.append(f"SSet {NAMES3.index(op[1]) + 1} {tab[op[2]]}")
+        elif k == "cd":
+            out.append(f"SCd {DIRS[op[1]]}")
+        elif k == "opt":
+            out.append("SOpt 1")
+        elif k == "boom":
+            out.append("SBoom")
+        elif k == "sub":
+            out.append(f"SSub {prog_coq(op[1], tab)} true")
+    return "[" + "; ".join(out) + "]"
+
+
 class SubshellE2E(Suite):
-    name = "subshell-e2e"
-    model_fn = None
+    """nested subshell programs on the real bash and dash; the final state is also compared with coq/Subshell.v"""
+    name = "subshell_e2e"
+    imports = ["Subshell"]
+    model_fn = "subshell_model"
+    shard = 40
+
+    def coq_input(self, case):
+        tab = _value_table(case["prog"])
+        return f"({prog_coq(case['prog'], tab)}, [1; 2; 3])"
+
+    def obs_term(self, case, obs):
+        tab = _value_table(case["prog"])
+        if any(t[0] in ("hang", "boom-escaped") for t in obs):
+            return "(VL [])"
+        gets = [t for t in obs if t[0] == "get"][-3:]
+        pwds = [t for t in obs if t[0] == "pwd"]
+        opts = [t for t in obs if t[0] == "opt"]
+        cwd0 = [t for t in obs if t[0] == "cwd0"]
+        if len(gets) < 3 or not pwds or not opts or not cwd0 or [g[1] for g in gets] != NAMES3:
+            return "(VL [])"
+        vals = [tab.get(g[3], 999) for g in gets]
+        d = pwds[-1][2].rstrip("\n")
+        cwd = 0 if d == cwd0[0][1] else DIRS.get(d, 999)
+        return coq.V([vals, cwd, bool(opts[-1][2]), False])
 
     def run(self, case):
         import signal
@@ -381,6 +437,7 @@ class SubshellE2E(Suite):
                             m = cx.enter_context(C01.RealDash(lh)) if case["ash"] else lh
                             m.ch.READ_CHUNK_SIZE = case["chunk"]
                             cwd0 = m.exec0("pwd").rstrip("\n")
+                            trace.append(["cwd0", cwd0])
                             run_prog(m, case["ash"], case["prog"], [({}, cwd0, False)], trace)
                 except Hang:
                     trace.append(["hang"])
@@ -460,11 +517,12 @@ class SubshellE2E(Suite):
             [["sub", change + [["boom"]], False]] + check,
             [["set", "FOO", "a\\tb"], ["sub", [["set", "FOO", "-n"], ["boom"]], True], ["get", "FOO"], ["seen", "FOO"]],
         ]
+        epilogue = [["get", n] for n in names] + [["pwd"], ["chkopt"]]
         for k, prog in enumerate(fixed):
             for ash in (False, True):
-                yield {"ash": ash, "chunk": 4096 if k % 2 else 1, "prog": prog}
+                yield {"ash": ash, "chunk": 4096 if k % 2 else 1, "prog": prog + epilogue}
         for i in range(48 if tier == "quick" else 400):
-            prog = ops(0) + [["get", n] for n in names] + [["seen", names[0]], ["pwd"], ["chkopt"]]
+            prog = ops(0) + [["seen", names[0]]] + epilogue
             yield {"ash": i % 2 == 1, "chunk": rng.choice([1, 4096, 4096]), "prog": prog}
 
 
